@@ -657,3 +657,27 @@ Definition stage_map (i : input) : res emap :=
 (* Names() of the finalized list, and the members MakeTar writes *)
 Definition stage_list (i : input) : res (list member) :=
   match stage_map i with Ok m => Ok (finalize m) | Failed => Failed | Panic => Panic end.
+
+(* ---------------------------------------------------------------- the CONTENTS format (reference)
+   What Portage writes, one line per object (PMS leaves the VDB unspecified; this is the format
+   vdb/contents.go's comment describes): "dir NAME", "obj NAME MD5 MTIME", "sym NAME -> TARGET MTIME".
+   Used only to state that the parser model recovers the names (Properties/C06.v). *)
+Inductive centry := CDir (n : bytes) | CObj (n md5 ts : bytes) | CSym (n target ts : bytes).
+Definition centry_name (e : centry) : bytes := match e with CDir n | CObj n _ _ | CSym n _ _ => n end.
+Definition render_centry (e : centry) : bytes :=
+  match e with
+  | CDir n => bs "dir " ++ n
+  | CObj n md5 ts => bs "obj " ++ n ++ c_sp :: md5 ++ c_sp :: ts
+  | CSym n tg ts => bs "sym " ++ n ++ arrow ++ tg ++ c_sp :: ts
+  end.
+Definition render_contents (es : list centry) : bytes := join c_nl (map render_centry es) ++ [c_nl].
+Definition no_nl (s : bytes) : bool := negb (existsb (fun c => Ascii.eqb c c_nl) s).
+Definition no_sp (s : bytes) : bool := negb (existsb (fun c => Ascii.eqb c c_sp) s).
+Definition ends_nonspace (s : bytes) : bool := match rev s with c :: _ => negb (is_sp c) | [] => false end.
+Definition wf_centry (e : centry) : bool :=
+  match e with
+  | CDir n => no_nl n && ends_nonspace n
+  | CObj n md5 ts => no_nl n && negb (feq n []) && hex_ok md5 && negb (feq md5 []) && int64_ok ts
+  | CSym n tg ts => no_nl n && no_nl tg && int64_ok ts
+                    && match before_arrow (n ++ arrow) [] with Some n' => feq n' n | None => false end
+  end.
